@@ -127,7 +127,7 @@ var aTampers = []string{"ctl-desc", "ctl-other", "dat-other", "dat-body-resummed
 	"republished", "caseflip-index", "bitflip-index",
 	"consistent-cont", "consistent-dev", "consistent-fifo", "consistent-hidden-cont",
 	"consistent-dup-regreg", "consistent-dup-symcopy", "consistent-dup-symown", "consistent-dup-hard", "consistent-dup-cont",
-	"consistent-dup-hidden", "consistent-dup-alias"}
+	"consistent-dup-hidden", "consistent-dup-alias", "consistent-dup-dir", "consistent-dup-dirdir"}
 
 // sameLen returns a text of the same length as s that differs from it everywhere.
 func sameLen(s string, c byte) string {
@@ -244,8 +244,15 @@ func applyTamper(r *Rng, c *aCase, v []aServe, i int, kind string) {
 			a.Files = append([]aFile{{Path: ".hid-" + p.Name, Type: "cont", Mode: 0o644, Content: "hidden bytes\n", Rec: "none"}}, a.Files...)
 		})
 		s.Ctl, s.Dat, s.Index = aRef{i, k}, aRef{i, k}, "served"
+	case "consistent-dup-dirdir":
+		// a directory listed twice (with another mode): carries no content, fine
+		k := addAlt(func(a *aAlt) {
+			a.Files = append(a.Files, aFile{Path: "opt/" + p.Name, Type: "dir", Mode: 0o750}, aFile{Path: "opt/" + p.Name + "/sub", Type: "rawdir", Mode: 0o755},
+				aFile{Path: "opt/" + p.Name + "/sub", Type: "rawdir", Mode: 0o700})
+		})
+		s.Ctl, s.Dat, s.Index = aRef{i, k}, aRef{i, k}, "served"
 	case "consistent-dup-regreg", "consistent-dup-symcopy", "consistent-dup-symown", "consistent-dup-hard", "consistent-dup-cont",
-		"consistent-dup-hidden", "consistent-dup-alias":
+		"consistent-dup-hidden", "consistent-dup-alias", "consistent-dup-dir":
 		// one data section names an entry twice; control checksum, datahash and every per-file record are right
 		k := addAlt(func(a *aAlt) {
 			x := someReg(a)
@@ -282,6 +289,9 @@ func applyTamper(r *Rng, c *aCase, v []aServe, i int, kind string) {
 				// … pointing at a hidden leading entry of a type that nobody hashes
 				a.Files = append([]aFile{{Path: ".hid-" + p.Name, Type: "cont", Mode: 0o644, Content: sameLen(own, 'E'), Rec: "none"}}, a.Files...)
 				a.Files = append(a.Files, aFile{Path: name, Type: "symlink", Mode: 0o777, Link: "../../.hid-" + p.Name, RecOf: &own})
+			case "consistent-dup-dir":
+				// a directory entry that takes the very name of the file (the index would then serve no bytes for it)
+				a.Files = append(a.Files, aFile{Path: name, Type: "rawdir", Mode: 0o755})
 			case "consistent-dup-alias":
 				// a second name (hard link) for the file, then a new regular entry under the first name
 				a.Files = append(a.Files, aFile{Path: base + "zalias", Type: "hardlink", Mode: 0o644, Link: name},
